@@ -778,7 +778,10 @@ def settle_rule(run, f, rid):
         sd = [x for (x, t) in find_calls(b, callee_is(POOL + "::stopped"))]
         dc = [x for (x, t) in find_calls(b, callee_is(POOL + "::do_clean"))]
         sch = [x for (x, t) in find_calls(b, callee_is(POOL + "::try_timeout_schedule_task"))]
-        ok = sd and dc and sch and cfg.dominates(sch[0], sd[0]) and cfg.dominates(sd[0], dc[0])
+        # the clean-up that follows the drain loop (in a host that also cleans on its already-Stopped arm, only the one
+        # reachable from the loop is ordered after stopped())
+        dca = [x for x in dc if sch and x in cfg.reachable({sch[0]})]
+        ok = sd and dca and sch and cfg.dominates(sch[0], sd[0]) and all(cfg.dominates(sd[0], x) for x in dca)
         oks = [blk["id"] for blk in b.blocks for s in blk["stmts"] if s["k"] == "assign" and s["lhs"]["l"] == 0 and s["rhs"]["k"] == "agg" and s["rhs"].get("variant") == "Ok"]
         ok = ok and oks and cfg.must_pass([0], dc, exits=oks)[0]
         if ok:
